@@ -134,6 +134,16 @@ Section SimMap.
     rewrite Forall_forall in HS. rewrite (sim_end _ _ (HS f (ro_last_opt_in _ _ E))). reflexivity.
   Qed.
 
+  Lemma sim_floor_ok fl (fs : list mfile) :
+    Forall (fun f => sim f (h f)) fs -> floor_ok fl fs -> floor_ok fl (map h fs).
+  Proof.
+    intros HS [Hfl Hhd]. split.
+    - apply Forall_map. rewrite Forall_forall in *. intros f Hin.
+      destruct (HS f Hin) as (_ & _ & B & _ & D). rewrite B, D. apply Hfl. exact Hin.
+    - destruct fs as [|f rest]; [exact I|]. cbn [map]. inversion HS as [|? ? H1 _]; subst.
+      rewrite (sim_id _ _ H1), (sim_end _ _ H1). exact Hhd.
+  Qed.
+
   (** a manager whose catalogue is unchanged and whose actors are the [h]-images *)
   Lemma rep_sim m m' (fs : list mfile) :
     mgr_rep m fs -> Forall (fun f => sim f (h f)) fs ->
@@ -177,6 +187,10 @@ Qed.
 
 Lemma sim_reopen_all (fs : list mfile) : Forall file_ok fs -> Forall (fun f => sim f (reopen_f f)) fs.
 Proof. intros H. eapply Forall_impl; [|exact H]. intros f. apply sim_reopen. Qed.
+
+Lemma floor_ok_reopen fl (fs : list mfile) :
+  Forall file_ok fs -> floor_ok fl fs -> floor_ok fl (map reopen_f fs).
+Proof. intros Hok. apply sim_floor_ok. apply sim_reopen_all. exact Hok. Qed.
 
 Lemma lookup_fold_disk (actors : list (N * lim)) (d0 : list (N * lfile)) id :
   lookup id (fold_right (fun '(id, s) d => set_key id (l_file s) d) d0 actors)
@@ -268,4 +282,209 @@ Proof.
     + intros id. destruct (in_dec N.eq_dec id (map f_id fs)) as [Hin|Hnin]; [apply Id1; exact Hin|].
       rewrite (Id2 id Hnin). cbn [m0 m_disk]. rewrite Hdisk, (rp_actors m fs R), (lookup_amap_notin _ _ Hnin). reflexivity.
   - split; [apply sim_files_vis; exact HS|]. split; [apply sim_files_first; exact HS|apply sim_files_end; exact HS].
+Qed.
+
+(** * query *)
+Lemma ro_skipn_skipn {A} : forall b a (l : list A), skipn a (skipn b l) = skipn (b + a) l.
+Proof.
+  induction b as [|b IH]; intros a l; [reflexivity|].
+  destruct l as [|x l]; [rewrite !skipn_nil; reflexivity|]. cbn [skipn Nat.add]. apply IH.
+Qed.
+
+(** the entries of an interval of a consecutively indexed list are a contiguous segment *)
+Lemma between_indexed : forall (l : list lrec) i lo hi,
+  indexed i l ->
+  between lo hi l
+  = firstn (N.to_nat (N.min hi (i + nlen l) - N.max lo i)) (skipn (N.to_nat (N.max lo i - i)) l).
+Proof.
+  induction l as [|x l IH]; intros i lo hi H.
+  - unfold between. cbn [filter]. rewrite skipn_nil, firstn_nil. reflexivity.
+  - cbn [indexed] in H. destruct H as [Hx Hl]. specialize (IH (i + 1) lo hi Hl).
+    unfold between in *. cbn [filter]. rewrite Hx, nlen_cons.
+    destruct (N.leb_spec lo i) as [Hlo|Hlo]; destruct (N.ltb_spec i hi) as [Hhi|Hhi]; cbn [andb].
+    + replace (N.to_nat (N.max lo i - i)) with 0%nat by lia. cbn [skipn].
+      replace (N.to_nat (N.min hi (i + (1 + nlen l)) - N.max lo i))
+        with (S (N.to_nat (N.min hi (i + 1 + nlen l) - N.max lo (i + 1)))) by lia.
+      cbn [firstn]. f_equal. rewrite IH.
+      replace (N.to_nat (N.max lo (i + 1) - (i + 1))) with 0%nat by lia. reflexivity.
+    + rewrite IH.
+      replace (N.to_nat (N.min hi (i + 1 + nlen l) - N.max lo (i + 1))) with 0%nat by lia.
+      replace (N.to_nat (N.min hi (i + (1 + nlen l)) - N.max lo i)) with 0%nat by lia.
+      reflexivity.
+    + replace (N.to_nat (N.max lo i - i)) with (S (N.to_nat (N.max lo (i + 1) - (i + 1)))) by lia.
+      cbn [skipn]. rewrite IH. f_equal. lia.
+    + replace (N.to_nat (N.max lo i - i)) with (S (N.to_nat (N.max lo (i + 1) - (i + 1)))) by lia.
+      cbn [skipn]. rewrite IH. f_equal. lia.
+Qed.
+
+(** what a well-formed file answers is the interval of its visible records *)
+Lemma c_slice_between c lo hi :
+  wfc c -> c_split c <= c_end c -> c_slice c lo hi = between lo hi (vis c).
+Proof.
+  intros W Hs. rewrite (between_indexed _ _ lo hi (vis_indexed c W Hs)).
+  rewrite (vis_length c W Hs). pose proof (wf_split c W) as Hf.
+  replace (c_split c + (c_end c - c_split c)) with (c_end c) by lia.
+  unfold c_slice. cbv zeta. change (c_first c + nlen (c_all c)) with (c_end c).
+  destruct (N.min hi (c_end c) <=? N.max lo (c_split c)) eqn:E.
+  - replace (N.to_nat (N.min hi (c_end c) - N.max lo (c_split c))) with 0%nat by lia. reflexivity.
+  - f_equal. unfold vis. rewrite ro_skipn_skipn. f_equal. lia.
+Qed.
+
+(** a file that is not selected has no visible record in the interval *)
+Lemma between_unselected g c lo hi :
+  file_ok (g, c) -> selected g lo hi = false -> between lo hi (vis c) = [].
+Proof.
+  intros (W & H1 & _ & H3 & _) Hsel. unfold selected in Hsel.
+  apply Bool.orb_false_iff in Hsel. destruct Hsel as [_ Hh].
+  rewrite (between_indexed _ _ lo hi (vis_indexed c W H3)). pose proof (wf_split c W) as Hf.
+  match goal with |- firstn ?n _ = _ => replace n with 0%nat by lia end. reflexivity.
+Qed.
+
+Definition query_f (lo hi : N) (f : mfile) : mfile :=
+  if selected (fst f) lo hi then (fst f, c_after_read (snd f) lo hi) else f.
+
+Lemma sim_refl f : wfc (snd f) -> sim f f.
+Proof. intros W. unfold sim. auto. Qed.
+
+Lemma sim_query lo hi f : wfc (snd f) -> sim f (query_f lo hi f).
+Proof.
+  intros W. unfold query_f. destruct (selected (fst f) lo hi); [|apply sim_refl; exact W].
+  unfold sim. cbn [fst snd]. split; [reflexivity|]. split; [apply wfc_after_read; exact W|].
+  split; [|split; [apply c_all_after_read|]];
+    unfold c_after_read; cbv zeta;
+    destruct (N.min hi (c_first (snd f) + nlen (c_all (snd f))) <=? N.max lo (c_split (snd f))); reflexivity.
+Qed.
+
+Lemma query_f_id lo hi f : f_id (query_f lo hi f) = f_id f.
+Proof. unfold query_f. destruct (selected (fst f) lo hi); reflexivity. Qed.
+
+(** the state after the loop: the actor of every selected file has served the read *)
+Lemma query_loop_state : forall (l : list mfile) m lo hi,
+  NoDup (map f_id l) -> Forall (fun f => wfc (snd f)) l ->
+  (forall f, In f l -> lookup (f_id f) (m_actors m) = Some (conc (snd f))) ->
+  let m' := fst (mgr_query_loop m (map fst l) lo hi) in
+  m_logs m' = m_logs m /\ m_saved m' = m_saved m /\ m_cur m' = m_cur m /\
+  m_pre_ptr m' = m_pre_ptr m /\ m_limit m' = m_limit m /\
+  (forall id, lookup id (m_actors m') =
+     match lookup id (amap (map (query_f lo hi) l)) with
+     | Some s => Some s | None => lookup id (m_actors m) end) /\
+  (forall id, lookup id (m_disk m) = None -> lookup id (m_disk m') = None).
+Proof.
+  induction l as [|[g c] rest IH]; intros m lo hi Hnd Hw Hact.
+  - cbn [map mgr_query_loop fst amap lookup]. repeat split; try reflexivity. auto.
+  - inversion Hnd as [|? ? Hnin Hnd']; subst. inversion Hw as [|? ? W Hw']; subst. cbn [snd] in W.
+    change (f_id (g, c)) with (g_id g) in Hnin.
+    assert (Hnin' : ~ In (g_id g) (map f_id (map (query_f lo hi) rest))).
+    { rewrite map_map. intros Hin. apply Hnin. apply in_map_iff in Hin. destruct Hin as (f' & Hid & Hin).
+      rewrite query_f_id in Hid. apply in_map_iff. exists f'. split; [exact Hid|exact Hin]. }
+    pose proof (Hact (g, c) (or_introl eq_refl)) as Hl. unfold f_id in Hl. cbn [fst snd] in Hl.
+    cbv zeta. cbn [map fst mgr_query_loop]. fold (selected g lo hi).
+    unfold query_f at 1. cbn [fst snd].
+    destruct (selected g lo hi) eqn:Esel.
+    + unfold actor_of. rewrite Hl, (read_records_conc c lo hi W).
+      set (m2 := set_actor m (g_id g) (conc (c_after_read c lo hi))).
+      assert (Hact2 : forall f, In f rest -> lookup (f_id f) (m_actors m2) = Some (conc (snd f))).
+      { intros f Hin. cbn [m2 set_actor m_actors]. rewrite lookup_set_other; [apply Hact; right; exact Hin|].
+        intros Heq. apply Hnin. rewrite <- Heq. apply in_map. exact Hin. }
+      specialize (IH m2 lo hi Hnd' Hw' Hact2). cbv zeta in IH.
+      destruct (mgr_query_loop m2 (map fst rest) lo hi) as [m3 l3]. cbn [fst] in IH |- *.
+      destruct IH as (I1 & I2 & I3 & I4 & I5 & Ia & Id).
+      split; [exact I1|]. split; [exact I2|]. split; [exact I3|]. split; [exact I4|]. split; [exact I5|]. split.
+      * intros id. rewrite Ia. cbn [amap map lookup]. change (f_id (g, c_after_read c lo hi)) with (g_id g). cbn [snd].
+        cbn [m2 set_actor m_actors]. rewrite lookup_set_key.
+        destruct (id =? g_id g) eqn:E; [|reflexivity].
+        apply N.eqb_eq in E. subst id. rewrite (lookup_amap_notin _ _ Hnin'). reflexivity.
+      * intros id Hd. apply Id. cbn [m2 set_actor m_disk]. apply lookup_remove_key_none. exact Hd.
+    + assert (Hact2 : forall f, In f rest -> lookup (f_id f) (m_actors m) = Some (conc (snd f)))
+        by (intros f Hin; apply Hact; right; exact Hin).
+      specialize (IH m lo hi Hnd' Hw' Hact2). cbv zeta in IH.
+      destruct IH as (I1 & I2 & I3 & I4 & I5 & Ia & Id).
+      split; [exact I1|]. split; [exact I2|]. split; [exact I3|]. split; [exact I4|]. split; [exact I5|]. split.
+      * intros id. rewrite Ia. cbn [amap map lookup]. change (f_id (g, c)) with (g_id g). cbn [snd].
+        destruct (id =? g_id g) eqn:E; [|reflexivity].
+        apply N.eqb_eq in E. subst id. rewrite (lookup_amap_notin _ _ Hnin'). exact Hl.
+      * exact Id.
+Qed.
+
+(** a query returns exactly the visible entries with lo <= index < hi, in order; the log (and every
+    split-off floor) is unchanged *)
+Theorem mgr_query_rep_floor : forall m (fs : list mfile) lo hi,
+  mgr_rep m fs -> lo < U64MAX ->
+  exists fs', mgr_rep (fst (mgr_query m lo hi)) fs' /\
+    m_limit (fst (mgr_query m lo hi)) = m_limit m /\ m_pre_ptr (fst (mgr_query m lo hi)) = m_pre_ptr m /\
+    files_vis fs' = files_vis fs /\ files_first fs' = files_first fs /\ files_end fs' = files_end fs /\
+    snd (mgr_query m lo hi) = between lo hi (files_vis fs) /\
+    (forall fl, floor_ok fl fs -> floor_ok fl fs').
+Proof.
+  intros m fs lo hi R _. exists (map (query_f lo hi) fs).
+  pose proof (rp_files m fs R) as Hfiles.
+  assert (Hw : Forall (fun f : mfile => wfc (snd f)) fs).
+  { eapply Forall_impl; [|exact Hfiles]. intros [g c] (W & _). exact W. }
+  assert (HS : Forall (fun f => sim f (query_f lo hi f)) fs).
+  { eapply Forall_impl; [|exact Hw]. intros f. apply sim_query. }
+  pose proof (query_loop_state fs m lo hi (rep_nodup m fs R) Hw (fun f Hin => rep_actor m fs f R Hin)) as H.
+  cbv zeta in H. rewrite <- (rp_logs m fs R) in H. fold (mgr_query m lo hi) in H.
+  destruct H as (I1 & I2 & I3 & I4 & I5 & Ia & Id).
+  split; [|split; [exact I5|split; [exact I4|]]].
+  - apply (rep_sim (query_f lo hi) m _ fs R HS); try assumption.
+    + intros id. rewrite Ia. destruct (lookup id (amap (map (query_f lo hi) fs))) eqn:E; [reflexivity|].
+      apply ro_lookup_amap_none in E. rewrite (sim_map_ids _ fs HS) in E.
+      rewrite (rp_actors m fs R). apply lookup_amap_notin. exact E.
+    + intros id. apply Id. apply (rp_disk m fs R).
+  - split; [apply sim_files_vis; exact HS|]. split; [apply sim_files_first; exact HS|].
+    split; [apply sim_files_end; exact HS|].
+    split; [|intros fl; apply sim_floor_ok; exact HS].
+    destruct (mgr_query_refines m lo hi (rep_mgr_wf m fs R)) as [Hq _]. rewrite Hq, (rp_logs m fs R).
+    unfold files_vis, between. rewrite <- concat_filter_map, !map_map. f_equal.
+    apply map_ext_in. intros [g c] Hin. cbn [fst snd].
+    rewrite Forall_forall in Hfiles. pose proof (Hfiles _ Hin) as Hok.
+    fold (between lo hi (vis c)).
+    destruct (selected g lo hi) eqn:Esel.
+    + unfold file_slice. pose proof (rep_actor m fs (g, c) R Hin) as Hl. unfold f_id in Hl. cbn [fst snd] in Hl.
+      destruct Hok as (W & _ & _ & H3 & _).
+      rewrite Hl, (read_records_conc c lo hi W). cbn [fst]. apply c_slice_between; assumption.
+    + symmetry. eapply between_unselected; eassumption.
+Qed.
+
+(** a query returns exactly the visible entries with lo <= index < hi, in order; the log is unchanged *)
+Theorem mgr_query_rep : forall m (fs : list mfile) lo hi,
+  mgr_rep m fs -> lo < U64MAX ->
+  exists fs', mgr_rep (fst (mgr_query m lo hi)) fs' /\
+    m_limit (fst (mgr_query m lo hi)) = m_limit m /\ m_pre_ptr (fst (mgr_query m lo hi)) = m_pre_ptr m /\
+    files_vis fs' = files_vis fs /\ files_first fs' = files_first fs /\ files_end fs' = files_end fs /\
+    snd (mgr_query m lo hi) = between lo hi (files_vis fs).
+Proof.
+  intros m fs lo hi R Hlo.
+  destruct (mgr_query_rep_floor m fs lo hi R Hlo) as (fs' & H1 & H2 & H3 & H4 & H5 & H6 & H7 & _).
+  exists fs'. repeat (split; [assumption|]). assumption.
+Qed.
+
+(** * the last index *)
+Lemma mgr_last_snoc m (fs0 : list mfile) g c :
+  mgr_rep m (fs0 ++ [(g, c)]) ->
+  mgr_last m = ((if c_end c =? 0 then 0 else c_end c - 1), c_lterm c).
+Proof.
+  intros R. unfold mgr_last, cur_actor. rewrite (rp_cur m _ R), last_id_snoc. unfold f_id. cbn [fst].
+  assert (Hact : lookup (g_id g) (m_actors m) = Some (conc c)).
+  { apply (rep_actor m _ (g, c) R). apply in_or_app. right. left. reflexivity. }
+  rewrite Hact. reflexivity.
+Qed.
+
+(** get_last_log_index reports the index before the end of the log *)
+Theorem mgr_last_index : forall m (fs : list mfile) e,
+  mgr_rep m fs -> files_end fs = Some e -> fst (mgr_last m) = (if e =? 0 then 0 else e - 1).
+Proof.
+  intros m fs e R He. destruct (list_snoc_cases fs) as [->|(fs0 & [g c] & ->)]; [discriminate|].
+  rewrite files_end_snoc in He. cbn [snd] in He. inversion He; subst.
+  rewrite (mgr_last_snoc m fs0 g c R). reflexivity.
+Qed.
+
+(** after a restart the reported last term is the term of the last stored record of the last file *)
+Theorem mgr_last_after_reopen : forall m (fs0 : list mfile) g c,
+  mgr_rep m (fs0 ++ [(g, c)]) ->
+  mgr_last (mgr_reopen m) = ((if c_end c =? 0 then 0 else c_end c - 1), c_last_term c (g_pre g)).
+Proof.
+  intros m fs0 g c R. destruct (mgr_reopen_rep m _ R) as (R' & _).
+  rewrite map_app in R'. cbn [map] in R'. unfold reopen_f at 2 in R'. cbn [fst snd] in R'.
+  rewrite (mgr_last_snoc _ _ _ _ R'). reflexivity.
 Qed.
